@@ -91,7 +91,8 @@ def check(run):
     from vlib import datalemma
     H = macros(run)
     run.assumptions += ['allocation never fails', 'code obligations: arbitrary 3-entry catalogue (the functions have no size-dependent branch); data obligations: the shipped catalogues, evaluated directly (closed facts)']
-    run.parallel(small_catalogue(run))
+    from checks import c07
+    run.parallel(small_catalogue(run) + c07.symbols(run, prefix='C15'))
     res, rn, lines = catalogue_data(run, H)
     datalemma.report(run, 'C15/data/catalogues', res, ['xraylib-nist-compounds-internal.h', 'xraylib-radionuclides-internal.h', 'xraylib-nist-compounds.h', 'xraylib-radionuclides.h'],
                      'shipped NIST and radionuclide catalogues: well-formed entries, unique names, index macros name the entry they index')
